@@ -21,6 +21,7 @@
 #include "song.h"
 #include "input.h" // TrackRef
 #include "player.h" // Song_Validator
+#include "stringf.h"
 
 
 // For debugging, it's useful to run each pass through the song validator, to check for changes in the
@@ -76,7 +77,12 @@ int Optimizer::Stack_Analyzer::analyze_track(Song& song, Track& track, Optimizer
 				//printf("calling %d with usage %d+%d\n", drum_mode+event.param, usage, base_usage);
 				dest.base_usage = usage + base_usage;
 				if(!dest.parsing)
+				{
+					// the validator does not follow drum routines: the track may be missing
+					if(!song.get_track_map().count(event.param))
+						throw InputError(event.reference, stringf("drum mode error: track *%d is not defined", event.param).c_str());
 					dest.analyze_track(song, song.get_track(event.param), optimizer, 0);
+				}
 			}
 			usage += dest.max_usage;
 		}
